@@ -114,6 +114,14 @@ def _extra(core, top, mon, kw, fair=True, calibrate=False):
         if i == 0:
             cov("p0_command_stalled_8_cycles_by_others", age >= 8)
             cov("p0_read_served_after_refresh_and_writes", p.rdata.valid & mon.seen["ref"] & mon.seen["wr"])
+    # (2b) a refresh request is granted within L cycles (otherwise every bank parks in REFRESH and all ports starve)
+    if cs.with_refresh:
+        from checks.c04 import service_latency_bound
+        L = service_latency_bound(ts, ps, nb * ps.nranks, cs)
+        rcmd = core.controller.refresher.cmd
+        ra = age_counter(rcmd.valid & ~rcmd.ready)
+        bad("refresh_request_not_granted_within_L_ports_would_starve", ra > L)
+        top.L = L
     # (4) adversarial: bypass count on the victim's bank
     if not fair and len(core.ports) > 1:
         NB = 2 * (len(core.ports) - 1) + 2
